@@ -44,6 +44,7 @@ CONSTANTS Servers,    \* listener hosts, e.g. {"A"} or {"A", "B"}
           Confs,      \* listener configurations the environment starts servers in (subset of ConfNames)
           Stores,     \* store classes the environment brings about (subset of StoreClassNames)
           Ancs,       \* ancillary-data classes the environment's kernel produces (subset of AncNames)
+          SrcPorts,   \* source port classes the environment's senders use (subset of SrcPortNames)
           RestoreAtTop \* TRUE (the code): every loop iteration starts with buf = buf[:cap(buf)];
                       \* FALSE: the variant that restores the buffer only after a served request
                       \* (kept to show that HistoryIndependence is not vacuous)
@@ -142,6 +143,18 @@ EP(h, p)  == [h |-> h, p |-> p]
 \* where listener s receives datagrams of transport tp
 ListenEP(s, tp) == EP(s, IF tp = "ip" THEN "ntp" ELSE "sntp")
 ClientEP        == EP(Client, "eph")
+\* The sender's UDP source port (over SCION: the underlay source port and the
+\* SCION/UDP source port, which an end host sets alike).  The statement
+\* quantifies over all senders; the listeners pass the port to
+\* ntp.ValidateRequest and address the reply to it.  Classes:
+\*   "eph"    an ephemeral port (what a client's unbound socket gets)
+\*   "p123"   the NTP port itself, ntp.ServerPortIP (ntpdate, ntpd, chrony with
+\*            acquisitionport 123, another server's symmetric association)
+\*   "priv"   some other privileged port (< 1024)
+\*   "lport"  the port NUMBER of the addressed listener, on the sender's own address
+SrcPortNames == {"eph", "p123", "priv", "lport"}
+\* the port a sender of class c uses towards listener s over transport tp
+SrcPortOf(c, s, tp) == IF c = "lport" THEN ListenEP(s, tp).p ELSE c
 IAof(h)         == "ia" \o h
 
 Seg(cons, sid, hops) == [cons |-> cons, sid |-> sid, hops |-> hops]
@@ -239,13 +252,16 @@ NtsOutcome(pl) ==
      ELSE IF t.auth # "ok" THEN "nts.ProcessRequest"
      ELSE "pass"
 StNts(d) == NtsOutcome(d.pl) = "pass"
-\* ntp.ValidateRequest, statement by statement (TRUE = returns nil)
-ValidateRequest(b) ==
+\* ntp.ValidateRequest(req, srcPort), statement by statement (TRUE = returns
+\* nil); no statement of the function reads srcPort
+ValidateRequest(b, srcPort) ==
   LET li == LI(b) vn == VN(b) mode == Mode(b)
   IN /\ ~(li # 0 /\ li # 3)
      /\ ~(vn < 1 \/ 4 < vn)
      /\ ~((vn = 1 /\ mode # 0) \/ (vn # 1 /\ mode # 3))
-StValidate(d) == ValidateRequest(d.pl.b0)
+\* runIPServer: srcAddr.Port(); runSCIONServer: udpLayer.SrcPort
+L4SrcPort(d) == IF d.tp = "ip" THEN d.src.p ELSE d.sc.sp
+StValidate(d) == ValidateRequest(d.pl.b0, L4SrcPort(d))
 
 \* rxt, err := udp.TimestampFromOOBData(oob); if err != nil { rxt = timebase.Now() }:
 \* where the receive time comes from.  Both branches go on (TRUE = the stage
@@ -428,7 +444,7 @@ VARIABLES draft,   \* the datagram being composed by the environment
 vars == <<draft, net, hist, nsent, ninj, blen, conf, store>>
 
 Idle == [stage |-> "idle", b0 |-> 0, len |-> 0, tr |-> "none", tp |-> "ip", pk |-> "empty", fam |-> "44",
-         from |-> Client, to |-> Client, sc |-> "asis", anc |-> "ts"]
+         from |-> Client, to |-> Client, sc |-> "asis", anc |-> "ts", sp |-> "eph"]
 
 Init == /\ draft = Idle /\ net = << >> /\ hist = << >> /\ nsent = 0 /\ ninj = 0
         /\ blen = [x \in Servers \X {"ip", "scion"} |-> BufCap(x[2])]
@@ -454,17 +470,20 @@ ChooseVia ==
   /\ draft.stage = "shape"
   /\ \E v \in Vias : draft' = [draft EXCEPT !.stage = "via", !.tp = v[1], !.pk = v[2], !.fam = v[3]]
   /\ UNCHANGED <<net, hist, nsent, ninj, blen, conf, store>>
-\* destination: some listener; source: the client's own address or, when
-\* spoofing, the address of another listener
+\* destination: some listener; source: the client's own address, from a port
+\* of one of the classes SrcPorts, or, when spoofing, the address (and listener
+\* port) of another listener
 ChooseAddr ==
   /\ draft.stage = "via"
   /\ \E t \in Servers :
-       \E f \in {Client} \cup (IF Spoof THEN Servers \ {t} ELSE {}) :
-          draft' = [draft EXCEPT !.stage = "addr", !.from = f, !.to = t]
+       \/ \E p \in SrcPorts :
+            draft' = [draft EXCEPT !.stage = "addr", !.from = Client, !.to = t, !.sp = p]
+       \/ \E f \in (IF Spoof THEN Servers \ {t} ELSE {}) :
+            draft' = [draft EXCEPT !.stage = "addr", !.from = f, !.to = t]
   /\ UNCHANGED <<net, hist, nsent, ninj, blen, conf, store>>
 
 DraftDgram(x) ==
-  LET srcEP == IF x.from = Client THEN ClientEP ELSE ListenEP(x.from, x.tp)
+  LET srcEP == IF x.from = Client THEN EP(Client, SrcPortOf(x.sp, x.to, x.tp)) ELSE ListenEP(x.from, x.tp)
       dstEP == ListenEP(x.to, x.tp)
   IN [Dgram(x.tp, srcEP, dstEP,
             IF x.tp = "scion" THEN Sc(x.from, srcEP.p, x.to, dstEP.p, PathOf(x.pk), x.fam) ELSE NoSc,
@@ -570,8 +589,8 @@ NeverAnswersReply  == \A k \in DOMAIN hist : NeverAnswersReplyEv(hist[k])
 \* timestamp store, nor what the kernel attaches to the datagram.  (Together
 \* with ReplyIffValid on histories of several datagrams: a valid request is
 \* answered whatever the listener has seen before.  The events of hist range
-\* over every listener configuration, store class and ancillary-data class the
-\* environment produces; the clauses above mention none of them because the
+\* over every listener configuration, store class, ancillary-data class and
+\* source port class the environment produces; the clauses above mention none of them because the
 \* statement does not: "for each UDP payload that is a well-formed client
 \* request", "every reply".)
 HistoryIndependence ==
@@ -592,7 +611,7 @@ StampNeverDrops == \A a \in AncNames : StStamp(a)
 \* triggered it, the first byte of the reply is not the first byte of a valid request.
 Reflection == \A b \in 0 .. 255 : ValidFirst(b) => ~ValidFirst(ReplyB0)
 \* the pipeline's header test is the statement's header test, on all 256 bytes
-HeaderTestExact == \A b \in 0 .. 255 : ValidateRequest(b) <=> ValidFirst(b)
+HeaderTestExact == \A b \in 0 .. 255 : \A p \in SrcPortNames \cup {"ntp", "sntp"} : ValidateRequest(b, p) <=> ValidFirst(b)
 
 \* "two servers cannot be made to answer each other": each datagram the
 \* environment sends (even with another server's address as its source) causes
